@@ -450,6 +450,11 @@ class Emitter:
             if self.analysis is None:
                 self.analysis = self.analyze_scalar(self.event.value)
             length += len(self.analysis.scalar)
+            # Written with escapes (up to 10 characters for one), a short
+            # scalar may not fit in the 1024 characters within which the
+            # scanner accepts a simple key.
+            if len(self.analysis.scalar.encode('unicode_escape')) > 768:
+                return False
         return (length < 128 and (isinstance(self.event, AliasEvent)
             or (isinstance(self.event, ScalarEvent)
                     and not self.analysis.empty and not self.analysis.multiline)
